@@ -641,10 +641,14 @@ def run(ck):
     # vf.SplitMix(seed) is one fixed splitmix64 sequence entered at offset `seed`: streams of
     # neighbouring seeds would overlap after a few draws, so the seeds are spread 2^32 steps apart
     rng = vf.SplitMix(ck.seed * 4294967311 + 10)
-    nscripts = ck.scale(20, 500)
+    nscripts = ck.scale(20, 1200)
     ndouble = ck.scale(3, 10)
     hcmd = bins["h"]
 
+    if not ck.quick():
+        ck.leanchecker(PROP_MODULES + ["UsualProofs.C10.Script", "UsualProofs.C10.Pools",
+                                       "UsualProofs.C10.Structs", "UsualProofs.C10.Tree",
+                                       "UsualProofs.C10.Alloc"])
     corpus = vf.corpus_cases(PID)
     mcorpus = [c for c in corpus if all((l.split() or ["?"])[0] in MODELLED + ("fail", "end", "nop") for l in c)]
     ck.compare_cases(hcmd, dcmd, mcorpus, label="corpus", monitor=monitor)
